@@ -11,7 +11,7 @@ PROP = 'C05'
 LEAN_TARGETS = ['Props.C05']
 REQUIRED_THEOREMS = ['Props.C05.flatten_spec', 'Props.C05.unfold_dim_spec', 'Props.C05.sum_spec', 'Props.C05.matmul_spec',
                      'Props.C05.iteration_protocol', 'Props.C05.ctor_shape_forms', 'Props.C05.operator_forms', 'Props.C05.transpose_spec', 'Props.C05.movedim_spec', 'Props.C05.reshape_spec', 'Props.C05.concat_spec', 'Props.C05.stack_spec', 'Props.C05.unbind_spec', 'Props.C05.index_spec', 'Props.C05.mul_spec', 'Props.C05.mean_spec', 'Props.C05.max_spec', 'Props.C05.squeeze_many_spec', 'Props.C05.unsqueeze_spec']
-REQUIRED_THEOREMS += ['Props.C05.' + t for t in ['src_calls_transpose', 'src_calls_movedim', 'src_calls_reshape', 'src_calls_unsqueeze', 'src_calls_matmul', 'src_calls_addmm_forward', 'src_calls_sum_forward', 'src_calls_concat_forward', 'src_calls_stack', 'src_calls_unbind_forward', 'src_calls_slice']]   # ties to the source read on this run
+REQUIRED_THEOREMS += ['Props.C05.' + t for t in ['src_calls_transpose', 'src_calls_movedim', 'src_calls_reshape', 'src_calls_unsqueeze', 'src_calls_matmul', 'src_calls_addmm_forward', 'src_calls_sum_forward', 'src_calls_concat_forward', 'src_calls_stack', 'src_calls_unbind_forward', 'src_calls_slice', 'src_forward_add', 'src_forward_mul', 'src_forward_neg', 'src_forward_exp', 'src_forward_log', 'src_forward_sqrt', 'src_forward_pow', 'src_forward_pow_formula', 'src_forward_rpow']]   # ties to the source read on this run
 REQUIRED_THEOREMS += ['Props.C05.' + t for t in ['arange_forms', 'arange_explicit_end_zero', 'arange_negative_interval', 'arange_count_down', 'opt_given_is_kept', 'ctor_empty_shape_vs_zero_extent']]   # constructor calls (SynapModel/Ctors.lean)
 RULE = ('forward of every tensor op on operand ranks 0-5 over the whole argument space (same generators as C01 with rank <= 5, plus '
         '~10 % malformed arguments: accept/reject must agree); operator and reflected-operator forms with Python scalars on float64 '
@@ -416,8 +416,8 @@ def _oracle_mk(c):
 
 def extract():
     """which NumPy calls the array kernels make is re-read from cpu_ops.py (Generated/KernelCalls.lean); the src_calls_* theorems are re-checked by the build"""
-    import array_formulas
-    return array_formulas.write()[0]
+    import array_formulas, formulas
+    return array_formulas.write()[0] + formulas.write()[0]
 
 
 def cases(rng, tier):
